@@ -15,7 +15,7 @@ func init() { registry["C04"] = propC04 }
 func propC04() *Property {
 	return &Property{
 		ID:          "C04",
-		Explanation: "Static call-graph, template and provenance rules. Decided: (R1) the only code in the module that touches the network is jtp.Get — one TLS dial, one Write, the reads through one bufio.Reader, Close and deadline calls; no servitor package imports net/http or another client library; (R2) the bytes written are exactly \"GET \" + link.RequestURI() + \" HTTP/1.0\\r\\nHost: \" + link.Host + \"\\r\\nAccept: \" + accept + \"\\r\\n\\r\\n\" for the frame's own URL and Accept value, and every caller passes a constant Accept value without CR/LF; (R3) the dial uses TLS with the library's default verification (nil config or one that never disables verification), to JoinHostPort(link.Hostname(), link.Port() or 443) of the same URL, and only under link.Scheme == \"https\"; (R4) every URL that can reach jtp.Get is produced by url.Parse / ResolveReference or is a literal whose path, query and fragment parts are constants or url.Values.Encode output; (R5) the webfinger query is url.Values.Encode output. (R4, addition) the provenance walk continues through both operands of ResolveReference / JoinPath, which copy query and fragment of their argument verbatim. Not decided: net/url's own escaping guarantees and what the TLS library sends (trusted).",
+		Explanation: "Static call-graph, template and provenance rules. Decided: (R1) the only code in the module that touches the network is jtp.Get — one TLS dial, one Write, the reads through one bufio.Reader, Close and deadline calls; no servitor package imports net/http or another client library; (R2) the bytes written are exactly \"GET \" + link.RequestURI() + \" HTTP/1.0\\r\\nHost: \" + link.Host + \"\\r\\nAccept: \" + accept + \"\\r\\n\\r\\n\" for the frame's own URL and Accept value, and every caller passes a constant Accept value without CR/LF; (R3) the dial uses TLS with the library's default verification (nil config or one that never disables verification), to JoinHostPort(link.Hostname(), link.Port() or 443) of the same URL, and only under link.Scheme == \"https\"; (R4) every URL that can reach jtp.Get is produced by url.Parse / ResolveReference or is a literal whose path, query and fragment parts are constants or url.Values.Encode output; (R5) the webfinger query is url.Values.Encode output. (R4, addition) the provenance walk continues through both operands of ResolveReference / JoinPath, which copy query and fragment of their argument verbatim. (R3, addition) a non-nil tls.Config is accepted only if no field outside NextProtos, ClientSessionCache, SessionTicketsDisabled, Time, Rand, KeyLogWriter is ever stored into one: ServerName, Certificates, InsecureSkipVerify and the like change whom the certificate is checked against or what the client reveals. Not decided: net/url's own escaping guarantees and what the TLS library sends (trusted).",
 		Assumptions: []string{
 			"url.Parse/ResolveReference reject raw control characters and re-escape paths; a host containing CR/LF/space cannot be dialled, so nothing is written for it",
 			"crypto/tls with a nil config verifies the peer against the system roots",
